@@ -406,12 +406,57 @@ def rule_r5(chk):
     chk.ob("C01-R5", "fords.descriptors.SolutionVectors.get_curr_transition_indexes", ok, "current-dated state elements: (qid, position) for shift 0", dm.loc(gc))
 
 
+def rule_r6(chk, rid="C01-R6"):
+    from .. import memo
+    chk.rule(rid, "forward expansions are memoised per representation: each memo list handed to _get_solution_expansion is used "
+             "with one set of matrices only (square and triangular expansions never share a list), and the memo lists are reset "
+             "wherever the matrices they derive from are assigned", floor=3)
+    memo.self_check()
+    m = chk.repo.mod(SOL)
+    calls = []
+    for q, f in m.functions():
+        for c in calls_to(f, "_get_solution_expansion"):
+            calls.append((q, c))
+            chk.saw(m, q)
+    if not calls:
+        raise AnalysisError("anchor vanished: calls to _get_solution_expansion")
+    for q, ok, detail in memo.memo_arg_findings(calls):
+        chk.ob(rid, f"fords.solutions.{q}[memo]", ok, detail, m.loc(dict(calls)[q]))
+    # invalidation: any method of Solution that assigns one of the matrices used as inputs must also reset the memo
+    inputs = {}
+    for q, c in calls:
+        memo_attr = squash(c.args[0])
+        for a in c.args[1:]:
+            t = squash(a)
+            if t.startswith("self."):
+                inputs.setdefault(t[5:], set()).add(memo_attr[5:] if memo_attr.startswith("self.") else memo_attr)
+    for name, f in sorted(m.methods("Solution").items()):
+        stored = {n.attr for n in ast.walk(f) if isinstance(n, ast.Attribute) and isinstance(n.ctx, ast.Store) and isinstance(n.value, ast.Name) and n.value.id == "self"}
+        # tuple targets are Store too (ast marks elements), so unpacking assignments are covered
+        need = set().union(*(inputs[a] for a in stored if a in inputs)) if stored & set(inputs) else set()
+        if not need:
+            continue
+        chk.saw(m, f"Solution.{name}")
+        missing = sorted(need - stored)
+        # a reset done by the constructor chain counts when this method is only reached from it
+        if missing:
+            callers = [g for g, h in m.methods("Solution").items() if any(True for _ in calls_to(h, f"self.{name}"))]
+            reset_in_callers = all(set(missing) <= {n.attr for n in ast.walk(m.methods("Solution")[g]) if isinstance(n, ast.Attribute) and isinstance(n.ctx, ast.Store)} for g in callers) and bool(callers)
+            ok = reset_in_callers
+            chk.ob(rid, f"fords.solutions.Solution.{name}[memo reset]", ok,
+                   f"assigns {sorted(stored & set(inputs))}; memo(s) {missing} reset by its only caller(s) {callers}" if ok else
+                   f"assigns {sorted(stored & set(inputs))} but never resets {missing}: expansions computed from the old matrices are reused", m.loc(f))
+        else:
+            chk.ok(rid, f"fords.solutions.Solution.{name}[memo reset]", f"assigns {sorted(stored & set(inputs))} and resets {sorted(need)}", m.loc(f))
+
+
 def run(chk):
     rule_r1(chk)
     rule_r2(chk)
     rule_r3(chk)
     rule_r4(chk)
     rule_r5(chk)
+    rule_r6(chk)
     chk.assumptions = [
         "that the formulas built from the blocks are the Blanchard-Kahn solution (signs, factors inside well-shaped products), "
         "saddle-path stability of a given model and equation residuals of simulated paths are numerical: NOT decided",
